@@ -252,6 +252,10 @@ struct Case {
     buf: u32,
     maxdata: usize,
     slack: u32, // max_ports = base need + slack (normal) …
+    /// "base": the value travels over the connections' own base channels (re-serialized at every hop);
+    /// "bin": it travels over a base channel built on a bin channel that was forwarded across the connections,
+    /// so that `chmux::forward` relays the data and the port requests at the intermediate endpoints
+    via: String,
     halves: Vec<HalfSpec>,
 }
 
@@ -262,8 +266,8 @@ fn kv(line: &str) -> HashMap<String, String> {
 impl Case {
     fn spec_lines(&self) -> Vec<String> {
         let mut v = vec![format!(
-            "case {} hops={} scenario={} chunk={} buf={} maxdata={} slack={}",
-            self.name, self.hops, self.scenario, self.chunk, self.buf, self.maxdata, self.slack
+            "case {} hops={} scenario={} chunk={} buf={} maxdata={} slack={} via={}",
+            self.name, self.hops, self.scenario, self.chunk, self.buf, self.maxdata, self.slack, self.via
         )];
         for h in &self.halves {
             v.push(format!("half {} kind={} travels={} pos={} prequeue={}", h.label, h.kind, h.travels, h.pos, h.prequeue as u8));
@@ -292,6 +296,7 @@ impl Case {
                     buf: m["buf"].parse().unwrap(),
                     maxdata: m["maxdata"].parse().unwrap(),
                     slack: m.get("slack").and_then(|s| s.parse().ok()).unwrap_or(4),
+                    via: m.get("via").cloned().unwrap_or_else(|| "base".into()),
                     halves: vec![],
                 });
             } else if let Some(rest) = l.strip_prefix("half ") {
@@ -491,14 +496,15 @@ async fn run_case_async(case: Case) {
     // (forwarding endpoints: one per half and connection)
     let hops = case.hops;
     tr(format!(
-        "case {} hops={} scenario={} n={} chunk={} buf={} maxdata={}",
+        "case {} hops={} scenario={} n={} chunk={} buf={} maxdata={} via={}",
         case.name,
         hops,
         case.scenario,
         case.halves.len(),
         case.chunk,
         case.buf,
-        case.maxdata
+        case.maxdata,
+        case.via
     ));
     for h in &case.halves {
         tr(format!("half {} kind={} travels={} pos={} prequeue={}", h.label, h.kind, h.travels, h.pos, h.prequeue as u8));
@@ -514,8 +520,9 @@ async fn run_case_async(case: Case) {
         let need_a = if i == 0 { 1 + n_ports } else { 2 + 2 * n_ports };
         let need_b = if i + 1 == hops { 1 + n_ports } else { 2 + 2 * n_ports };
         // two spare ports during connection establishment, then `slack`
-        let mut pa = need_a + 1 + case.slack;
-        let mut pb = need_b + 1 + case.slack;
+        let extra = if case.via == "bin" { 2 + 2 * n_ports } else { 0 };
+        let mut pa = need_a + 1 + case.slack + extra;
+        let mut pb = need_b + 1 + case.slack + extra;
         if case.scenario == "txports" && i == 0 {
             pa = (1 + n_ports).saturating_sub(1).max(2);
         }
@@ -558,9 +565,81 @@ async fn run_case_async(case: Case) {
         }
     }
     let mut senders: Vec<Option<rch::base::Sender<Value>>> = senders.into_iter().map(Some).collect();
-    for i in 0..hops {
+    let mut hops_to_run = hops;
+    if case.via == "bin" {
+        // 1. a bin channel whose receiver half is shipped to the far endpoint, forwarded at every intermediate one
+        hops_to_run = 0;
+        let (btx, brx) = rch::bin::channel();
+        let mut boot = Value::empty(0);
+        boot.vec.push(L { label: 0, h: H::BinRx(brx) });
+        let mut boot = Some(boot);
+        let mut ok = true;
+        for i in 0..hops {
+            let v = boot.take().unwrap();
+            let tx = senders[i].as_mut().unwrap();
+            let rx = &mut receivers[i];
+            let (sres, rres) = tokio::join!(no_hang(tx.send(v)), no_hang(rx.recv()));
+            match (sres, rres) {
+                (Some(Ok(())), Some(Ok(Some(v)))) => boot = Some(v),
+                _ => {
+                    tr(format!("bootstrap hop={i} failed"));
+                    ok = false;
+                    break;
+                }
+            }
+        }
+        let far_rx = match boot {
+            Some(v) if ok => {
+                let mut ls = Vec::new();
+                v.flatten(&mut ls);
+                match ls.pop().map(|l| l.h) {
+                    Some(H::BinRx(r)) => Some(r),
+                    _ => None,
+                }
+            }
+            _ => None,
+        };
+        let raw = match far_rx {
+            Some(r) => match (no_hang(btx.into_inner()).await, no_hang(r.into_inner()).await) {
+                (Some(Ok(t)), Some(Ok(r))) => Some((t, r)),
+                _ => None,
+            },
+            None => None,
+        };
+        match raw {
+            None => tr("bootstrap failed".into()),
+            Some((raw_tx, raw_rx)) => {
+                // 2. the value with its halves over a base channel on top of the forwarded bin channel
+                let mut btx = rch::base::Sender::<Value>::new(raw_tx);
+                let mut brx = rch::base::Receiver::<Value>::new(raw_rx);
+                let v = travelling.take().unwrap();
+                let (sres, rres) = tokio::join!(no_hang(btx.send(v)), no_hang(brx.recv()));
+                match sres {
+                    Some(Ok(())) => tr("valuesend hop=0 res=ok".into()),
+                    Some(Err(e)) => {
+                        tr(format!("valuesend hop=0 res={}", send_kind(&e.kind)));
+                        e.item.flatten(&mut local_fallback);
+                    }
+                    None => tr("valuesend hop=0 res=hang".into()),
+                }
+                match rres {
+                    Some(Ok(Some(v))) => {
+                        tr("valuerecv hop=0 res=ok".into());
+                        v.flatten(&mut arrived);
+                        delivered = true;
+                    }
+                    Some(Ok(None)) => tr("valuerecv hop=0 res=eos".into()),
+                    Some(Err(e)) => tr(format!("valuerecv hop=0 res=err-{}", short(&e))),
+                    None => tr("valuerecv hop=0 res=hang".into()),
+                }
+                // keep the carrier channel alive while the halves are exercised
+                std::mem::forget((btx, brx));
+            }
+        }
+    }
+    for i in 0..hops_to_run {
         let v = travelling.take().unwrap();
-        let last = i + 1 == hops;
+        let last = i + 1 == hops_to_run;
         if last && (case.scenario == "norecv" || case.scenario == "connfail") {
             // the value is sent but never received
             let mut tx = senders[i].take().unwrap();
@@ -854,7 +933,9 @@ fn gen_case(r: &mut Rng, i: u64, stats: &mut HashMap<String, u64>) -> Case {
     stat(stats, &format!("scenario_{scenario}"));
     stat(stats, &format!("hops_{hops}"));
     stat(stats, &format!("halves_{}", if n == 0 { "0" } else if n <= 2 { "1-2" } else if n <= 6 { "3-6" } else { "7-12" }));
-    Case { name: format!("wiring-{i}"), hops, scenario: scenario.into(), chunk, buf, maxdata, slack: r.range(0, 3) as u32, halves }
+    let via = if scenario == "normal" && r.chance(1, 5) && !halves.iter().any(|h| h.travels == "both") { "bin" } else { "base" };
+    stat(stats, &format!("via_{via}"));
+    Case { name: format!("wiring-{i}"), hops, scenario: scenario.into(), chunk, buf, maxdata, slack: r.range(0, 3) as u32, via: via.into(), halves }
 }
 
 fn fixed_cases() -> Vec<Case> {
@@ -873,6 +954,17 @@ half 9 kind=bin travels=rx pos=map
 half 10 kind=mpsc travels=tx pos=map
 half 11 kind=mpsc travels=rx pos=nested
 half 12 kind=oneshot travels=tx pos=nested
+end
+# the value travels over a base channel built on a bin channel forwarded across three connections: chmux::forward relays
+# the data and the port requests (ids preserved) at the two intermediate endpoints
+case fixed-via-bin-3hops hops=3 scenario=normal chunk=10 buf=16 maxdata=4096 slack=1 via=bin
+half 1 kind=mpsc travels=tx pos=vec
+half 2 kind=mpsc travels=rx pos=map
+half 3 kind=oneshot travels=tx pos=opt
+half 4 kind=watch travels=rx pos=map
+half 5 kind=bin travels=tx pos=pair
+half 6 kind=bcast travels=rx pos=pair
+half 7 kind=mpsc travels=tx pos=nested
 end
 # lr halves (one connection only), streamed value
 case fixed-lr hops=1 scenario=normal chunk=10 buf=16 maxdata=64 slack=0
